@@ -511,19 +511,16 @@ func classifiedSentinels(p *Prog, s Site) map[string]bool {
 		if len(b.Instrs) == 0 {
 			continue
 		}
-		iff, ok := b.Instrs[len(b.Instrs)-1].(*ssa.If)
-		if !ok {
+		if _, ok := b.Instrs[len(b.Instrs)-1].(*ssa.If); !ok {
 			continue
 		}
 		var sents map[string]bool
 		var isSucc *ssa.BasicBlock
 		if v, g, isS, _, ok := sentinelTest(b); ok && al[v] {
 			sents, isSucc = map[string]bool{g: true}, isS
-		} else if c, ok := iff.Cond.(*ssa.Call); ok && len(c.Call.Args) == 1 && al[stripIface(c.Call.Args[0])] {
-			if sc := c.Call.StaticCallee(); sc != nil {
-				if m, ok := sentinelPredicate(sc); ok {
-					sents, isSucc = m, b.Succs[0]
-				}
+		} else if c, tS, _, ok := predicateTest(b); ok && al[stripIface(c.Call.Args[0])] {
+			if m, ok := sentinelPredicate(c.Call.StaticCallee()); ok {
+				sents, isSucc = m, tS
 			}
 		}
 		if sents == nil {
@@ -861,6 +858,104 @@ func ruleRotate(r *Report) {
 		A := CallsIn(fn, Suffix("WriterI.Close", "CloseableI.Close", "FileWriter.Close"))
 		B := CallsIn(fn, Keys("wal.setupNextWriter"))
 		o.OnlyAfterSuccess(rule, rule+"/wal.Appender.Rotate/close-before-next", fn, "currentWriter.Close", A, "setupNextWriter", B, nil)
+	}
+	// every other caller of setupNextWriter replaces the current writer too: it must have closed it, unless the
+	// appender is being constructed (allocated in the calling function)
+	for _, fn := range p.ModuleFuncs() {
+		if FuncKey(fn) == "wal.Appender.Rotate" || fn.Blocks == nil {
+			continue
+		}
+		B := CallsIn(fn, Keys("wal.setupNextWriter"))
+		if len(B) == 0 {
+			continue
+		}
+		fresh := true
+		for _, b := range B {
+			args := argsOf(b.Call())
+			if len(args) == 0 {
+				fresh = false
+				continue
+			}
+			if _, isAlloc := args[0].(*ssa.Alloc); !isAlloc {
+				fresh = false
+			}
+		}
+		key := rule + "/" + FuncKey(fn) + "/close-before-next"
+		if fresh {
+			r.OK(rule, key, fn.Pos(), "first writer of a freshly allocated appender")
+			continue
+		}
+		A := CallsIn(fn, Suffix("WriterI.Close", "CloseableI.Close", "FileWriter.Close"))
+		o.OnlyAfterSuccess(rule, key, fn, "currentWriter.Close", A, "setupNextWriter", B, nil)
+	}
+	// Rotate hands back the path of the file it closed: the flusher deletes every WAL file up to that name
+	if fn := p.Func("wal.Appender.Rotate"); fn != nil {
+		key := rule + "/wal.Appender.Rotate/returns-closed-path"
+		// call sites in Rotate that (transitively) rewrite currentWriterPath
+		var rewriters []Site
+		eachInstr(fn, func(s Site) {
+			c, ok := s.Instr.(ssa.CallInstruction)
+			if !ok {
+				return
+			}
+			var roots []*ssa.Function
+			for _, cal := range p.Callees(c) {
+				roots = append(roots, cal)
+			}
+			for _, g := range moduleReach(p, roots) {
+				eachInstr(g, func(t Site) {
+					if st, ok := t.Instr.(*ssa.Store); ok {
+						if typ, fld, _, ok := fieldAddrName(st.Addr); ok && typ == "wal.Appender" && fld == "currentWriterPath" {
+							rewriters = append(rewriters, s)
+						}
+					}
+				})
+			}
+		})
+		bad := ""
+		nret := 0
+		for _, rs := range nilReturns(fn) {
+			ret := rs.Instr.(*ssa.Return)
+			if len(ret.Results) == 0 {
+				continue
+			}
+			nret++
+			v := ret.Results[0]
+			var loads []ssa.Value
+			if u, ok := v.(*ssa.UnOp); ok && u.Op == token.MUL && isCell(u.X) {
+				vals, unk := reachingStores(u)
+				if unk {
+					bad = "the returned path cannot be traced"
+				}
+				loads = vals
+			} else {
+				loads = []ssa.Value{v}
+			}
+			for _, l := range loads {
+				typ, fld, _, ok := loadOfField(l)
+				ins, isIns := l.(ssa.Instruction)
+				if !ok || !isIns || typ != "wal.Appender" || fld != "currentWriterPath" {
+					bad = "the returned path is not the appender's current writer path read before the rotation"
+					continue
+				}
+				ls := Site{Fn: fn, Block: ins.Block(), Idx: indexIn(ins)}
+				ls.Instr = ins
+				for _, w := range rewriters {
+					if w.Fn == fn && (reachableFromSite(w, ls) || (w.Block == ls.Block && w.Idx < ls.Idx)) {
+						bad = "the returned path is read after " + siteDesc(p, w) + " replaced it: Rotate returns the name of the NEW file, and the flusher deletes every WAL file up to that name, including the one being appended to"
+					}
+				}
+			}
+		}
+		if len(rewriters) == 0 {
+			r.Missing(rule, key, "no call in Rotate rewrites currentWriterPath")
+		} else if nret == 0 {
+			r.Missing(rule, key, "Rotate has no success return")
+		} else if bad != "" {
+			r.Bad(rule, key, fn.Pos(), bad)
+		} else {
+			r.OK(rule, key, fn.Pos(), "success returns the path read before the next writer is set up")
+		}
 	}
 	if fn := r.NeedFunc(rule, "simpledb.DB.rotateWalAndFlushMemstore"); fn != nil {
 		A := CallsIn(fn, Suffix("WriteAheadLogAppendI.Rotate", "Appender.Rotate"))
